@@ -134,7 +134,11 @@ def replay(case):
                         # the documented list form of the rank argument, re-used for two data sets: the
                         # requested ranks of the second call are what the caller wrote, whatever the first call did
                         rl = [1] + [m] * len(basis2) + [1]
-                        tf.hocur(x[:, :1], [[make_fn(f) for f in mode] for mode in cfg['basis']], ranks=rl, progress=False)
+                        try:
+                            tf.hocur(x[:, :1], [[make_fn(f) for f in mode] for mode in cfg['basis']], ranks=rl, progress=False)
+                        except Exception:
+                            pass        # the one-snapshot tensor may be zero (rank 0: outside HOCUR's domain); only the
+                            #             effect of this call on the caller's list matters here
                         h = tf.hocur(x, basis2, ranks=rl, repeats=1, multiplier=mult, progress=False)
                     else:
                         h = tf.hocur(x, basis2, ranks=m, repeats=1 + (cfg['seed'] % 2), multiplier=mult, progress=False)
